@@ -14,8 +14,8 @@ ND = tiered(8, 10)     # ids below
 NINV = tiered(2, 3)
 NDINV = tiered(5, 7)
 NC3 = tiered(1, 2)     # third submatcher of the array unions
-NI2 = tiered(2, 3)     # depth 2
-ND2 = tiered(6, 8)
+NI2 = 2                # depth 2
+ND2 = 6
 
 F = ["whoosh.matching.mcore.ListMatcher"]
 
@@ -214,9 +214,10 @@ def _nest(op1, op2, left, a, b, c):
 def _mk_nest(op1):
     name = BIN[op1][0]
 
-    @h(bounds="outer=%s, inner op symbolic over 6 binary classes, inner on left/right symbolic, 3 leaves ids<=NI2<ND2 (quick 2<6, thorough 3<8)" % name,
+    @h(bounds="outer=%s, inner op symbolic over 6 binary classes, inner on left/right symbolic, 3 leaves ids<=2<6; thorough tier only (about 6000 paths, 1000 s; the quick tier covers nesting through c01_d2_*)" % name,
        funcs=F + ["whoosh.matching.binary.*", "whoosh.matching.wrappers.RequireMatcher"],
-       examples=[dict(op2=2, left=True, a=[1, 3], b=[0, 3], c=[1]), dict(op2=0, left=False, a=[1], b=[2], c=[1, 2])])
+       examples=[dict(op2=2, left=True, a=[1, 3], b=[0, 3], c=[1]), dict(op2=0, left=False, a=[1], b=[2], c=[1, 2])],
+       timeout=dict(quick=400, thorough=4000), tiers=("thorough",))
     def nest(op2: int, left: bool, a: List[int], b: List[int], c: List[int]) -> Optional[str]:
         """
         pre: 0 <= op2 < 6
